@@ -87,6 +87,9 @@ CASES: List[Tuple[str, bool, str, str]] = [
     ("unrolled-order-changed", False,
      "def f(self, t):\n    if 'A' in t:\n        self.r(t['A'])\n    if 'B' in t:\n        self.r(t['B'])\n",
      "def f(self, t):\n    for k in ('B', 'A'):\n        if k in t:\n            self.r(t[k])\n"),
+    ("foreign-attribute-is-not-a-rename", False,
+     "import os\nclass A:\n    def f(self, p, d):\n        r = os.path.realpath(p)\n        return r.startswith(os.path.realpath(d) + os.sep)\n",
+     "import os\nclass A:\n    def f(self, p, d):\n        r = os.path.abspath(p)\n        return r.startswith(os.path.abspath(d) + os.sep)\n"),
     ("copy-dropped", False,
      "def f(name, diff):\n    t = tab.get(name)\n    if diff:\n        t = t.copy()\n        t[0] = diff\n    return t\n",
      "def f(name, diff):\n    t = tab.get(name)\n    if diff:\n        t[0] = diff\n    return t\n"),
@@ -95,6 +98,9 @@ CASES: List[Tuple[str, bool, str, str]] = [
 
 def _nf(src: str, other: str, key: str) -> str:
     tree, otree = ast.parse(src), ast.parse(other)
+    ren = equiv._detect_renames_once(tree, otree)
+    if ren:
+        equiv._rename_everywhere(tree, ren)
     ft, oft = equiv.function_table(tree), equiv.function_table(otree)
     ct, oct_ = equiv.const_table(tree), equiv.const_table(otree)
     helpers = {k: v[0] for k, v in ft.items() if k not in oft}
